@@ -53,11 +53,13 @@ impl Prop {
 }
 
 const SINGLES: &[u32] = &[
-    0, 1, 0x30, 0x39, 0x3A, 0x41, 0x61, 0x62, 0x63, 0x64, 0x7A, 0x7F, 0x80, 0xFFFF, 0x10000,
+    0, 1, 0x30, 0x39, 0x3A, 0x41, 0x61, 0x62, 0x63, 0x64, 0x7A, 0x7F, 0x80, 0xFF, 0x100, 0xD7FF,
+    0xD800, 0xDBFF, 0xDC00, 0xDFFF, 0xE000, 0xFFFD, 0xFFFE, 0xFFFF, 0x10000, 0x1FFFF, 0x20000,
     0x2FFFE, 0x2FFFF,
 ];
 const EXTRA_CUTS: &[u32] = &[
-    2, 0x30, 0x3A, 0x41, 0x5B, 0x61, 0x7B, 0x80, 0x800, 0xD800, 0x10000, 0x20000, 0x2FFFF,
+    2, 0x30, 0x3A, 0x41, 0x5B, 0x61, 0x7B, 0x80, 0x100, 0x800, 0xD800, 0xDC00, 0xE000, 0xFFFE,
+    0x10000, 0x20000, 0x2FFFF,
 ];
 
 struct Gen<'a> {
@@ -886,6 +888,20 @@ impl<'a> Gen<'a> {
                     self.push(Step::new(cl, Str).s(w));
                     words.push(self.last(c));
                 }
+                if self.rng.chance(1, 4) {
+                    // members whose first characters tile the whole alphabet, one of them not a
+                    // plain range: [0..m] + [m+1..max].x
+                    let k = self.ncells;
+                    let m = self.rng.below(k.saturating_sub(1).max(1) as u64) as u32;
+                    self.push(Step::new(cl, Range).a(0, m, 0));
+                    let r1 = self.last(c);
+                    self.push(Step::new(cl, Range).a((m + 1).min(k - 1), k - 1, 0));
+                    let r2 = self.last(c);
+                    let w0 = words[0];
+                    self.push(Step::new(cl, Concat).a(r2, w0, 0));
+                    let r2w = self.last(c);
+                    words = vec![r1, r2w];
+                }
                 self.push(Step::new(cl, UnionList).l(words));
                 let u = self.last(c);
                 let op = if self.rng.chance(3, 4) { Star } else { Plus };
@@ -1258,9 +1274,21 @@ impl<'a> Gen<'a> {
                 if self.rng.chance(1, 3) || (many && (self.force_many || self.rng.chance(1, 2))) {
                     // alternatives with different continuations
                     let mut alts: Vec<u32> = Vec::new();
-                    for (i, &p) in parts.iter().enumerate() {
+                    for (i, &p) in parts.clone().iter().enumerate() {
                         let t = if many { conts[i % 3] } else { self.h(c) };
                         self.push(Step::new(cl, Concat).a(p, t, 0));
+                        alts.push(self.last(c));
+                    }
+                    if many && self.rng.chance(1, 2) && !alts.is_empty() {
+                        // an absorption pair among many members: t and t & y with y wider
+                        let t = alts[self.rng.below(alts.len() as u64) as usize];
+                        self.push(Step::new(cl, AllChar));
+                        let sg = self.last(c);
+                        self.push(Step::new(cl, All));
+                        let fl = self.last(c);
+                        self.push(Step::new(cl, Concat).a(sg, fl, 0));
+                        let y = self.last(c);
+                        self.push(Step::new(cl, Inter).a(t, y, 0));
                         alts.push(self.last(c));
                     }
                     self.push(Step::new(cl, UnionList).l(alts.clone()));
@@ -1340,8 +1368,42 @@ impl<'a> Gen<'a> {
                         }
                     }
                 } else {
+                    let mut absorbed_q: Option<u32> = None;
+                    if many && self.rng.chance(1, 2) {
+                        // an absorption pair among many members: a character and (character & class)
+                        let ti = self.rng.below(parts.len() as u64) as usize;
+                        let t = parts[ti];
+                        if !self.single_cells.is_empty() {
+                            let code = first + ti as u32;
+                            absorbed_q = Some(self.single_cells[code as usize % self.single_cells.len()] * 3);
+                        }
+                        let k = self.ncells;
+                        self.push(Step::new(cl, Range).a(0, k - 1, 0));
+                        let y = self.last(c);
+                        self.push(Step::new(cl, Inter).a(t, y, 0));
+                        parts.push(self.last(c));
+                    }
+                    let probe = parts[self.rng.below(parts.len() as u64) as usize];
                     self.push(Step::new(cl, UnionList).l(parts));
                     let u = self.last(c);
+                    if many {
+                        let r = self.rng.u32();
+                        let q = self.qstr();
+                        self.push(Step::new(cl, StrInRe).a(u, r, 0).s(q));
+                        self.push(Step::new(cl, IncludedIn).a(probe, u, 0));
+                        let pc = match absorbed_q {
+                            Some(q) => q,
+                            None => self.point_code(),
+                        };
+                        self.push(Step::new(cl, StrInRe).a(u, r, 0).s(vec![pc]));
+                        self.push(Step::new(cl, StartChar).a(u, pc, 0));
+                        let kk = self.rng.below(n.max(1)) as u32;
+                        self.push(Step::new(cl, StartClass).a(u, kk, 0));
+                        self.push(Step::new(cl, Concat).a(u, u, 0));
+                        let uu = self.last(c);
+                        self.push(Step::new(cl, StartChar).a(uu, pc, 0));
+                        self.push(Step::new(cl, StartClass).a(uu, kk, 0));
+                    }
                     match self.rng.below(4) {
                         0 => self.push(Step::new(cl, Star).a(u, 0, 0)),
                         1 => self.push(Step::new(cl, Plus).a(u, 0, 0)),
